@@ -9,6 +9,7 @@
 \*        GetActiveConfigValues(), el GetExpertiseLevel(), each the visits of ForEachOption, exp
 \*        ExportOptions(), cf / ch the keys that Clean{Flattened,Hierarchical}Config left in the probe
 \*        map, wt the keys for which a perspective getter of a wrong type answered (persp only)
+\*        "feed":[view..] what a subscription to the whole database "config" received during the operation
 \*   view = {k,t,rl,el,rr,an,d,v} as View(st, k) of the model
 EXTENDS CfgReg, Json
 
@@ -31,6 +32,7 @@ Match(x, ev) ==
     /\ ev.res.recs = x.res.recs
     /\ SeqIsPermOfSet(ev.res.keys, x.res.keys)
     /\ SeqIsPermOfSet(ev.res.vals, x.res.vals)
+    /\ FeedOK(ev.feed, x.fd)
     /\ ev.obs.recs = Views(x.st, <<>>)
     /\ Pending(x.st) \subseteq Range(ev.obs.pend)
     /\ Range(ev.obs.pend) \subseteq Pending(x.st) \cup x.may
@@ -44,7 +46,8 @@ Match(x, ev) ==
 
 WellFormed(o) == /\ o.raw \in RawIds \cup {"absent"}
                  /\ o.spec.d \in RawIds
-                 /\ \A i \in 1..Len(o.m) : o.m[i].raw \in RawIds \ {"nil"}
+                 \* (a map as the value of a perspective entry is part of the nesting, not a value)
+                 /\ \A i \in 1..Len(o.m) : o.m[i].raw \in RawIds \ {"nil", "x:map"}
                  /\ \A i, j \in 1..Len(o.m) : o.m[i].k = o.m[j].k => i = j
 
 DoOp == /\ l <= Len(Trace) /\ Trace[l].e = "op"
